@@ -213,6 +213,30 @@ def _copy_oracle(c, size, thr, cks=False):
     return None
 
 
+def legacy_upload(size, c0, c1, c2):
+    """C01.7: legacy S3Transfer.upload_file (MultipartUploader): the pool's part uploads run and complete in an order
+    decided by symbolic choices (lazy pool model, harness/legacy.py); the parts must still be listed 1..n"""
+    from harness import legacy as L
+    M = 1024 ** 2
+    c = L.upload(size, 5 * M, 5 * M, choices=(c0, c1, c2))
+    if c.outcome[0] == 'stuck':
+        return '~'
+    if c.outcome[0] != 'ok':
+        return 'upload: legacy upload failed'
+    if c.s3.bad:
+        return 'upload: legacy ' + c.s3.bad
+    r = c.s3.check_object('key', size)
+    if r:
+        return 'upload: legacy ' + r
+    if size >= 5 * M:
+        if len(c.s3.uploads) != 1:
+            return 'upload: legacy not exactly one multipart upload'
+        r = c.s3.check_complete_args(list(c.s3.uploads)[0]) or c.s3.check_multipart_lifecycle(True)
+        if r:
+            return 'upload: legacy ' + r
+    return None
+
+
 _UP = 'size: int, thr: int, chunk: int, off: int, r1: int'
 _UPRE = ['0 <= size', '1 <= thr', '1 <= chunk <= 5 * 1024 ** 3', '0 <= off', 'size <= 3 * max(chunk, 5 * 1024 ** 2)',
          'size <= 10000 * chunk', '-1 <= r1']
@@ -282,4 +306,13 @@ OBLIGATIONS = [
          encodes=['TransferManager.copy', 'CopySubmissionTask._submit', 'CopyObjectTask', 'CopyPartTask',
                   'calculate_range_parameter', '_get_transfer_size'],
          assumptions=['S1', 'S2', 'identity-content data']),
+    dict(id='C01.7', impl='legacy_upload', params='size: int, c0: int, c1: int, c2: int', groups=['legacy'],
+         pre=['0 <= c0 <= 2 and 0 <= c1 <= 2 and 0 <= c2 <= 2'],
+         splits=[['0 <= size < 5 * 1024 ** 2'], ['5 * 1024 ** 2 <= size <= 10 * 1024 ** 2'],
+                 ['10 * 1024 ** 2 < size <= 15 * 1024 ** 2']], timeout=(120, 600),
+         bounds='legacy S3Transfer.upload_file, <= 3 parts of 5 MiB, size symbolic; the pool\'s part uploads run and '
+                'complete in an order decided by 3 symbolic choices',
+         encodes=['s3transfer.S3Transfer.upload_file', 'MultipartUploader.upload_file', '_upload_parts',
+                  '_upload_one_part'],
+         assumptions=['S1', 'S2', 'identity-content data', 'lazy pool model: tasks run to completion in any order']),
 ]
